@@ -83,7 +83,26 @@ pub fn run(args: &Args) {
             _ => ("@".to_string(), fixed_doc.as_bytes().to_vec()),
         };
         // input variants
-        let input: Vec<u8> = match rng.below(18) {
+        let input: Vec<u8> = match rng.below(26) {
+            // bytes that are not UTF-8 *inside* a JSON string / key, where a lossy decoder
+            // would quietly substitute U+FFFD and go on
+            18 => b"{\"a\": \"x\xffy\", \"xs\": [1]}".to_vec(),
+            19 => b"{\"k\xc3\": 1}".to_vec(),
+            20 => b"[\"\xed\xa0\x80\"]".to_vec(),
+            21 => b"\"abc\xe2\x82\"".to_vec(),
+            22 => {
+                // large input whose multi-byte characters straddle every power-of-two buffer boundary
+                let mut v = b"[\"".to_vec();
+                v.extend(std::iter::repeat(b'x').take(rng.below(3)));
+                for _ in 0..70_000 {
+                    v.extend("é".as_bytes());
+                }
+                v.extend(b"\", 1]");
+                v
+            }
+            23 => [&b"\r\n\t "[..], &doc_text[..], &b"\r\n"[..]].concat(),
+            24 => b"\"ctl \x01 raw\"".to_vec(),
+            25 => b"{\"a\": \"line1\nline2\"}".to_vec(),
             14 => [&doc_text[..], &b" x"[..]].concat(),
             15 => [&doc_text[..], &b"]"[..]].concat(),
             16 => [&doc_text[..], &b"\n"[..], &doc_text[..]].concat(),
@@ -116,10 +135,15 @@ pub fn run(args: &Args) {
         if in_argv {
             argv.push(json!(expr_text));
         } else {
-            let (content, readable): (Vec<u8>, bool) = match rng.below(8) {
+            let (content, readable): (Vec<u8>, bool) = match rng.below(13) {
                 0 => (format!("{}\n", expr_text).into_bytes(), true),
                 1 => (vec![0xc3, 0x28, b'a'], false),
                 2 => (vec![], true),
+                8 => (b"'a\xffb'".to_vec(), false),
+                9 => (b"'line1\nline2'".to_vec(), true),
+                10 => (format!("{}\r\n", expr_text).into_bytes(), true),
+                11 => (b"a\nb".to_vec(), true),
+                12 => (b"`\"x\ny\"`\n\n| [@,\n @]".to_vec(), true),
                 _ => (expr_text.clone().into_bytes(), true),
             };
             if rng.chance(1, 12) {
